@@ -29,8 +29,8 @@ structure Out where
   lowOnPath : Nat := 0       -- queries whose target path runs through a node whose label was lowered
   maxPath : Nat := 0
 
-def pathsLine (k n : Nat) (f : Nat → Res (Option (Array Int))) : String × Bool × Bool :=
-  let rs := (List.range n).map f
+def pathsLine (k : Nat) (watch : List Nat) (f : Nat → Res (Option (Array Int))) : String × Bool × Bool :=
+  let rs := watch.map f
   let strs := rs.map fun r => match r with
     | .ok p => renderPath p
     | .panic => "MODEL-PANIC"
@@ -39,22 +39,26 @@ def pathsLine (k n : Nat) (f : Nat → Res (Option (Array Int))) : String × Boo
 
 def runModel (c : GCase) (adj : Adj) : Out := Id.run do
   let n := c.n
-  let mut o : Out := { model := #[renderAdj n adj] }
+  let large := c.sample.isSome
+  let watch := c.watch
+  let mut o : Out := { model := if large then #[] else #[renderAdj n adj] }
   let mut uni := Uni.new
   let mut o2m := O2M.new
   let mut k := 0
   for q in c.queries do
     match q with
     | .uni s t =>
-      let t1 := traceRun adj n s (some t) []
+      -- large graphs: no statistics trace, and the query runs on a fresh model object (the reused
+      -- one yields the same result and state: theorem Props.C08.reuse_eq_fresh)
+      let t1 : Trace := if large then {} else traceRun adj n s (some t) []
       o := { o with tr := o.tr.add t1 }
-      match uniRun adj n uni s t with
+      match uniRun adj n (if large then Uni.new else uni) s t with
       | .ok (st, d) =>
         uni := st
         let pt := st.retrieveNodePath t
         let ps := match pt with | .ok (some _) => "some" | .ok none => "none" | _ => "MODEL-STUCK"
         o := { o with model := o.model.push s!"D {k} uni dist={d} path={ps}" }
-        let (line, f, p) := pathsLine k n st.retrieveNodePath
+        let (line, f, p) := pathsLine k watch st.retrieveNodePath
         o := { o with model := o.model.push line }
         if f then o := { o with modelBad := some s!"model-out-of-fuel (path retrieval, query {k})" }
         if p then o := { o with modelBad := some s!"model reached a panic branch (path retrieval, query {k})" }
@@ -66,14 +70,14 @@ def runModel (c : GCase) (adj : Adj) : Out := Id.run do
       | .fuel => o := { o with modelBad := some s!"model-out-of-fuel (query {k})", model := o.model.push s!"D {k} MODEL-FUEL" }
       | .panic => o := { o with modelBad := some s!"model reached a panic branch (query {k})", model := o.model.push s!"D {k} MODEL-PANIC" }
     | .o2m s ts =>
-      let t1 := traceRun adj n s none ts
+      let t1 : Trace := if large then {} else traceRun adj n s none ts
       o := { o with tr := o.tr.add t1 }
-      match o2mRun adj n o2m s ts with
+      match o2mRun adj n (if large then O2M.new else o2m) s ts with
       | .ok (st, ok) =>
         o2m := st
         o := { o with model := o.model.push s!"D {k} o2m ok={bit ok} T={o2mDistStr st ts}" }
-        o := { o with model := o.model.push s!"F {k} labels {joinWith "," ((List.range n).map fun v => toString (st.distance v))}" }
-        let (line, f, p) := pathsLine k n st.retrieveNodePath
+        o := { o with model := o.model.push s!"F {k} labels {joinWith "," (watch.map fun v => toString (st.distance v))}" }
+        let (line, f, p) := pathsLine k watch st.retrieveNodePath
         o := { o with model := o.model.push line }
         if f then o := { o with modelBad := some s!"model-out-of-fuel (path retrieval, query {k})" }
         if p then o := { o with modelBad := some s!"model reached a panic branch (path retrieval, query {k})" }
@@ -100,21 +104,30 @@ def judge (c : GCase) (impl : Array String) : Verdict := Id.run do
   if impl.contains "PANIC" then return .fail "implementation panicked on an in-domain case"
   if impl.contains "HANG" || impl.contains "ABORT" then return .fail "implementation hung or aborted"
   let umax := UMAX.toNat
+  let watch := c.watch
+  if watch.any (· ≥ n) then return .skip "sampled node outside the graph"
   let mut k := 0
   for q in c.queries do
     let some dl := implLine impl s!"D {k} " | return .fail s!"query {k}: no observation"
     let some pl := implLine impl s!"F {k} paths" | return .fail s!"query {k}: no paths observation"
     let pstrs := (words pl).drop 3
-    if pstrs.length != n then return .fail s!"query {k}: paths line has {pstrs.length} entries for {n} nodes"
+    if pstrs.length != watch.length then return .fail s!"query {k}: paths line has {pstrs.length} entries for {watch.length} observed nodes"
     let paths := pstrs.map parsePath
+    let pathOfNode (v : Nat) : Option (Option (List Nat)) := (List.zip watch paths).lookup v
     match q with
     | .uni s t =>
       let some D := oracle adj n s | return .fail s!"query {k}: spec oracle did not converge (checker bug)"
       let some dist := (field dl "dist").bind String.toNat? | return .fail s!"query {k}: no dist field"
-      let pt := paths.getD t none
-      if (field dl "path") != some (if pt.isSome then "some" else "none") then
+      -- the target's path: from the paths line when the target is observed (always, unless sampled)
+      let ptKnown := pathOfNode t
+      let pt : Option (List Nat) := ptKnown.getD none
+      if ptKnown.isSome && (field dl "path") != some (if pt.isSome then "some" else "none") then
         return .fail s!"query {k}: path= field inconsistent with the paths line"
-      if dist != umax then
+      if ptKnown.isNone then
+        -- sampled case whose target is not in the sample: only the some/none flag can be judged
+        if (dist != umax) != ((field dl "path") == some "some") then
+          return .fail s!"query {k}: distance {dist} and path={(field dl "path").getD "?"} do not fit"
+      else if dist != umax then
         match pt with
         | none => return .fail s!"query {k}: distance {dist} reported for {s}->{t} but no path returned"
         | some p =>
@@ -124,8 +137,7 @@ def judge (c : GCase) (impl : Array String) : Verdict := Id.run do
             return .fail s!"query {k}: path {showPath p} has weight {dist} but the true distance {s}->{t} is {showD (gt D t)}"
       else if pt.isSome then return .fail s!"query {k}: unreachable marker reported for {t} but a path was returned"
       -- every other node: a returned path must be a real simple path from s; unreachable nodes get none
-      let mut v := 0
-      for pv in paths do
+      for (v, pv) in List.zip watch paths do
         match pv with
         | none => pure ()
         | some p =>
@@ -134,16 +146,22 @@ def judge (c : GCase) (impl : Array String) : Verdict := Id.run do
           | none => return .fail s!"query {k}: path {showPath p} for node {v} uses a non-existing edge"
           | some w => if !(SP.validPathB adj s v p w) then
               return .fail s!"query {k}: path {showPath p} is not a simple path {s}->{v}"
-        v := v + 1
     | .o2m s ts =>
       let some D := oracle adj n s | return .fail s!"query {k}: spec oracle did not converge (checker bug)"
       let some ll := implLine impl s!"F {k} labels" | return .fail s!"query {k}: no labels observation"
       let labels := parseNatList (((words ll).drop 3).headD "")
-      if labels.length != n then return .fail s!"query {k}: labels line has {labels.length} entries"
+      if labels.length != watch.length then return .fail s!"query {k}: labels line has {labels.length} entries"
       let tds := parseNatList ((field dl "T").getD "")
-      if tds != ts.map (fun t => labels.getD t 0) then return .fail s!"query {k}: T= field inconsistent with the labels line"
-      let mut v := 0
-      for (lab, pv) in List.zip labels paths do
+      let labOf (v : Nat) : Option Nat := (List.zip watch labels).lookup v
+      if tds.length != ts.length then return .fail s!"query {k}: T= field has {tds.length} entries"
+      for (t, td) in List.zip ts tds do
+        match labOf t with
+        | some l => if l != td then return .fail s!"query {k}: T= field inconsistent with the labels line"
+        | none =>
+          -- sampled case, target not observed: judge its reported distance directly
+          if td != (gt D t).getD umax then
+            return .fail s!"query {k}: target {t}: reported distance {td}, true distance {showD (gt D t)}"
+      for (v, lab, pv) in List.zip watch (List.zip labels paths) do
         if (gt D v).isNone && (lab != umax || pv.isSome) then
           return .fail s!"query {k}: node {v} is unreachable from {s} but has label {lab} / a path"
         if lab != umax then
@@ -155,7 +173,6 @@ def judge (c : GCase) (impl : Array String) : Verdict := Id.run do
             if ts.contains v && gt D v != some lab then
               return .fail s!"query {k}: target {v}: path {showPath p} has weight {lab} but the true distance is {showD (gt D v)}"
         else if pv.isSome then return .fail s!"query {k}: node {v} has no label but a path was returned"
-        v := v + 1
     k := k + 1
   return .ok
 
@@ -174,6 +191,7 @@ def handle (cs : Case) : CaseOut :=
       stats := [("nontrivial", bit (r.lowOnPath ≥ 1)), ("queries_with_lowered_node_on_path", toString r.lowOnPath),
                 ("maxpath", toString r.maxPath), ("pops", toString r.tr.pops), ("inserts", toString r.tr.ins),
                 ("decreases", toString r.tr.dec), ("order_changing_decreases", toString r.tr.decOrd),
-                ("queries", toString c.queries.length), ("nodes", toString c.n), ("edges", toString c.edges.length)] }
+                ("queries", toString c.queries.length), ("nodes", toString c.n), ("edges", toString c.edges.length),
+                ("large", bit c.sample.isSome)] }
 
 end Tbx.Drv.C09
